@@ -109,6 +109,7 @@ type interpreter struct {
 	wrapErrorPtr types.Type
 	initDirect *ssa.Function
 	fmtDepth   int
+	egErrs     map[*value]iface
 	stack      []*ssa.Function
 	stackAtPanic []*ssa.Function
 }
